@@ -14,6 +14,13 @@ import (
 // manager's reload, entry by entry.
 
 //verif:guarded Manager mu cfgs visitors
+//verif:lock-held (*~/client/visitor.Manager).startVisitor mu
+
+// C16 "mutexes around every shared map": every method of these types (and every
+// function literal inside them), whether or not it has a contract of its own,
+// is swept for accesses to the guarded fields without the lock.
+//
+//verif:sweep-type Manager props=C16 kinds=lock
 
 // The base configuration of a visitor configuration is a fixed attribute of it
 // (assumption, listed in the evidence).
@@ -158,3 +165,10 @@ func verif_VManager_Close(vm *Manager) {
 	verif.Ensures(verif.Closed(vm.stopCh), "keeper_told_to_stop")
 	verif.Ensures(!verif.Held(&vm.mu), "lock_released")
 }
+
+// ---------------------------------------------------------------- C16: tunnel sessions of the xtcp visitor
+
+//verif:guarded KCPTunnelSession mu session lConn
+//verif:guarded QUICTunnelSession mu session listenConn
+//verif:sweep-type KCPTunnelSession props=C16 kinds=lock
+//verif:sweep-type QUICTunnelSession props=C16 kinds=lock
